@@ -26,7 +26,12 @@ import numpy as np
 
 import core
 
-RULE = ("grids: every (algorithm, N) with algorithm in {ico, cube3D, randomS} and N in 4..30 plus seed-chosen larger N "
+RULE = ("every grid / rot case draws (by seed) the representation of each argument it passes to the package - N as int / np.int64 / "
+        "np.int32 / np.uint16 / 0-d array, algorithm name as str / run-time-built str / np.str_ / str subclass, dimensions as int / "
+        "numpy integer, construction route (3-D factory positional / keyword, SphereGridFactory, class + gen_grid), getter flags as "
+        "absent / bool / np.bool_ / 0-1, RotobjVoronoi point array as C / Fortran / strided / read-only - plus an exhaustive sweep of "
+        "all families over ico_8, cube3D_13, randomS_20; the expected result never depends on the representation. "
+        "grids: every (algorithm, N) with algorithm in {ico, cube3D, randomS} and N in 4..30 plus seed-chosen larger N "
         "(quick) / every N in 4..162 plus {200,300,500,642} (thorough); each also as a randomly rotated copy fed to "
         "RotobjVoronoi (degenerate vertices then differ in the last bits and exercise the isclose re-indexing); "
         "additionally randomS N in 200..300 (quick: 240 and three seed-chosen; thorough: every N 163..300), the grids with "
@@ -343,12 +348,92 @@ def _getter(fn, stub=None):
         return {"err": core.errname(e)}
 
 
+# argument representations: the same mathematical input in every form the public API accepts on the unchanged tree and
+# for which the result is bit-identical to the plain-Python call there (established once, see REPS_LEFT_OUT for the rest).
+# A case stores the NAMES of the representations (case["rep"]); model and oracle always take the denoted values.
+class _StrSub(str):
+    pass
+
+
+N_REPS = {"int": int, "np.int64": np.int64, "np.int32": np.int32, "np.uint16": np.uint16, "0d_array": lambda n: np.array(n)}
+STR_REPS = {"str": str, "built": lambda t: "".join(list(t)), "np.str_": np.str_, "subclass": _StrSub}
+DIM_REPS = {"int": int, "np.int64": np.int64, "np.int32": np.int32}
+FLAG_REPS = {"absent": None, "bool": bool, "np.bool_": np.bool_, "0-1": int}
+ROUTES = ("factory3", "factory3_kw", "factory_dims", "factory_dims_kw", "class", "class_kw")
+ARR_REPS = ("c", "fortran", "strided", "readonly")
+PLAIN = {"N": "int", "alg": "str", "route": "factory3", "dims": "int", "flag": "absent", "arr": "c"}
+REPS_LEFT_OUT = [
+    {"argument": "N", "representation": "float (integer valued)", "reason": "rejected on the unchanged tree: TypeError"},
+    {"argument": "algorithm name", "representation": "bytes", "reason": "rejected on the unchanged tree: ValueError (unknown algorithm)"},
+    {"argument": "RotobjVoronoi(my_array)", "representation": "list of lists / tuple of tuples",
+     "reason": "rejected on the unchanged tree: AttributeError ('list' object has no attribute 'shape')"},
+    {"argument": "RotobjVoronoi(my_array)", "representation": "float32 array (exactly representable values)",
+     "reason": "accepted, same pattern, but the radius is then a float32 norm: borders / areas differ by up to 9e-8 from the "
+               "float64 call on the same values - not the same computation in another representation"},
+    {"argument": "RotobjVoronoi(my_array)", "representation": "np.longdouble array",
+     "reason": "accepted, same pattern, values agree to 1e-7 only (extended-precision norm), as for float32"},
+]
+
+
+def _draw_rep(rr, kind):
+    rep = {"N": rr.choice(list(N_REPS)), "alg": rr.choice(list(STR_REPS)), "route": rr.choice(ROUTES),
+           "dims": rr.choice(list(DIM_REPS)), "flag": rr.choice(list(FLAG_REPS))}
+    if kind == "rot":
+        rep["arr"] = rr.choice(ARR_REPS)
+    return rep
+
+
+def _rep_tag(case):
+    rep = case.get("rep") or {}
+    d = [f"{k}={v}" for k, v in sorted(rep.items()) if PLAIN.get(k) != v]
+    return "[" + ",".join(d) + "]" if d else ""
+
+
+def _build_grid(alg, N, rep):
+    """a fresh 3-D grid object through the public route and argument representations named in `rep`"""
+    from molgri.space import rotobj
+    rep = {**PLAIN, **(rep or {})}
+    n, a, d = N_REPS[rep["N"]](N), STR_REPS[rep["alg"]](alg), DIM_REPS[rep["dims"]](3)
+    route = rep["route"]
+    if route == "factory3":
+        return rotobj.SphereGrid3DFactory.create(a, n)
+    if route == "factory3_kw":
+        return rotobj.SphereGrid3DFactory.create(alg_name=a, N=n)
+    if route == "factory_dims":
+        return rotobj.SphereGridFactory.create(a, n, d)
+    if route == "factory_dims_kw":
+        return rotobj.SphereGridFactory.create(alg_name=a, N=n, dimensions=d)
+    cls = {"ico": rotobj.IcoRotations, "cube3D": rotobj.Cube3DRotations, "randomS": rotobj.RandomSRotations}[alg]
+    g = cls(n) if route == "class" else cls(N=n)
+    g.gen_grid()
+    return g
+
+
+def _flag_kw(rep, name):
+    f = {**PLAIN, **(rep or {})}["flag"]
+    return {} if f == "absent" else {name: FLAG_REPS[f](False)}
+
+
+def _arr_rep(P, rep):
+    a = {**PLAIN, **(rep or {})}["arr"]
+    if a == "fortran":
+        return np.asfortranarray(P)
+    if a == "strided":
+        wide = np.zeros((len(P), 6))
+        wide[:, ::2] = P
+        return wide[:, ::2]
+    if a == "readonly":
+        Q = P.copy()
+        Q.setflags(write=False)
+        return Q
+    return P
+
+
 def _points(case):
-    """grid points of a grid / rot case (through the public factory)"""
-    from molgri.space.rotobj import SphereGrid3DFactory
+    """grid points of a grid / rot case (through the public route / representations the case names)"""
     with core.quiet():
-        g = SphereGrid3DFactory.create(case["alg"], case["N"])
-    P = np.array(g.get_grid_as_array(), dtype=float)
+        g = _build_grid(case["alg"], case["N"], case.get("rep"))
+        P = np.array(g.get_grid_as_array(**_flag_kw(case.get("rep"), "only_upper")), dtype=float)
     if case["kind"] == "grid":
         return g, P
     P2 = P @ _rotmat(case["q"]).T
@@ -386,16 +471,23 @@ def impl(case):
                 getters = (g.get_voronoi_adjacency, g.get_cell_borders, g.get_center_distances)
             else:
                 with core.quiet():
-                    obj = RotobjVoronoi(P)
+                    obj = RotobjVoronoi(_arr_rep(P, case.get("rep")))
                 getters = (obj.get_voronoi_adjacency, obj.get_cell_borders, obj.get_center_distances)
         except Exception as e:
             return {"build_err": core.errname(e)}
         out["P"] = P
-    out["centers"] = np.array(obj.get_all_voronoi_centers(), dtype=float)
-    out["vertices"] = np.array(obj.get_all_voronoi_vertices(reduced=False), dtype=float)
-    out["regions"] = [[int(x) for x in r] for r in obj.get_all_voronoi_regions(reduced=False)]
-    out["reduce"] = {"ok": {"nv": np.array(obj.get_all_voronoi_vertices(reduced=True), dtype=float),
-                            "nr": [[int(x) for x in r] for r in obj.get_all_voronoi_regions(reduced=True)]}}
+    try:
+        out["centers"] = np.array(obj.get_all_voronoi_centers(), dtype=float)
+        out["vertices"] = np.array(obj.get_all_voronoi_vertices(reduced=False), dtype=float)
+        out["regions"] = [[int(x) for x in r] for r in obj.get_all_voronoi_regions(reduced=False)]
+        out["reduce"] = {"ok": {"nv": np.array(obj.get_all_voronoi_vertices(reduced=True), dtype=float),
+                                "nr": [[int(x) for x in r] for r in obj.get_all_voronoi_regions(reduced=True)]}}
+    except Exception as e:
+        # the object behind the grid does not expose a SphericalVoronoi diagram (e.g. a MikroVoronoi stand-in): nothing to
+        # feed the model with; the getters and the oracle still run
+        for k in ("centers", "vertices", "regions", "reduce"):
+            out.pop(k, None)
+        out["no_diagram"] = f"{type(obj).__name__}: {core.errname(e)}"
     names = ("get_voronoi_adjacency", "get_cell_borders", "get_center_distances")
     out["adj"] = _getter(getters[0], stub and (names[0], stub))
     out["border"] = _getter(getters[1], stub and (names[1], stub))
@@ -407,7 +499,8 @@ def impl(case):
     if case["kind"] != "synthetic":
         try:
             with core.quiet():
-                a = obj.get_voronoi_volumes() if case["kind"] == "rot" else g.get_voronoi_volumes()
+                kw = _flag_kw(case.get("rep"), "approx")
+                a = obj.get_voronoi_volumes(**kw) if case["kind"] == "rot" else g.get_voronoi_volumes(**kw)
             out["areas"] = {"ok": [float(v) for v in a]}
         except Exception as e:
             out["areas"] = {"err": core.errname(e)}
@@ -422,7 +515,7 @@ def _ratrows(a):
 
 
 def model_ops(case, out):
-    if "build_err" in out or "stub_incompatible" in out:
+    if "build_err" in out or "stub_incompatible" in out or "no_diagram" in out:
         return []
     return [{"op": "grid", "eps": core.rat(EPS_CERT), "centers": _ratrows(out["centers"]),
              "vertices": _ratrows(out["vertices"]), "regions": out["regions"]}]
@@ -477,6 +570,10 @@ def compare(ctx, case, out, mouts):
     tag = {k: case[k] for k in ("kind", "alg", "N") if k in case}
     if "build_err" in out:
         ctx.branch("build_error:" + out["build_err"])
+        return
+    if "no_diagram" in out:
+        ctx.corr("grid object exposes no Voronoi diagram (centres / vertices / regions) to feed the model with", case,
+                 out["no_diagram"], "RotobjVoronoi with scipy SphericalVoronoi data")
         return
     if "stub_incompatible" in out:
         # the synthetic object could not be driven (a private member the stub does not have, while the same call on a
@@ -576,10 +673,12 @@ def compare(ctx, case, out, mouts):
             ctx.branch("certificate_validated")
         ctx.branch(f"grid_N_{'4-12' if N <= 12 else '13-30' if N <= 30 else '31-100' if N <= 100 else '101-200' if N <= 200 else '>200'}")
         ctx.branch("kind_" + case["kind"] + "_" + case["alg"])
+        for k, v in sorted((case.get("rep") or {}).items()):
+            ctx.branch(f"rep_{k}_{v}")
         if "ok" in out["adj"]:
             nnz = len(out["adj"]["ok"]["row"])
             if 0 < nnz < N * (N - 1) or nred < nvert or used < nred:
-                ctx.nt((case["kind"], case["alg"], case["N"], tuple(case.get("q", ()))))
+                ctx.nt((case["kind"], case["alg"], case["N"], tuple(case.get("q", ())), _rep_tag(case)))
         if case["N"] in (8, 13) or (case["kind"] == "rot" and case["N"] == 12):
             ctx.sample(case)
     else:
@@ -721,7 +820,7 @@ def oracle_eval(case, out):
         return fails, st
     if case["kind"] == "synthetic":
         return reindex_clause(case, out, "synthetic")
-    tag = f"{case['kind']}:{case['alg']}_{case['N']}"
+    tag = f"{case['kind']}:{case['alg']}_{case['N']}{_rep_tag(case)}"
     if "build_err" in out:
         fails.append((f"C03:{tag}:exception", f"building the grid / its Voronoi object raised {out['build_err']}", None, None))
         return fails, st
@@ -925,9 +1024,40 @@ def _process(ctx, case_list, workers):
         feed(map(_work_batch, batches))
 
 
+def representation_sweep():
+    """exhaustive sweep of all representation families over three small fixed grids: each family one value at a time
+    (the others plain), plus everything non-plain at once; ordinary cases, judged by the per-pair oracle and the model"""
+    out = []
+    for alg, N, q in (("ico", 8, [0.5, 0.5, -0.5, 0.5]), ("cube3D", 13, [0.8, 0.0, 0.6, 0.0]), ("randomS", 20, [0.6, 0.0, 0.0, 0.8])):
+        variants = [{"N": v} for v in N_REPS if v != "int"] + [{"alg": v} for v in STR_REPS if v != "str"]
+        variants += [{"route": v} for v in ROUTES if v != "factory3"]
+        variants += [{"route": "factory_dims", "dims": v} for v in DIM_REPS if v != "int"]
+        variants += [{"flag": v} for v in FLAG_REPS if v != "absent"]
+        variants += [{"N": "0d_array", "alg": "np.str_", "route": "factory_dims_kw", "dims": "np.int64", "flag": "np.bool_"},
+                     {"N": "np.uint16", "alg": "subclass", "route": "class_kw", "flag": "0-1"}]
+        for v in variants:
+            out.append({"kind": "grid", "alg": alg, "N": N, "rep": {**PLAIN, **v}})
+        for a in ARR_REPS:
+            if a != "c":
+                out.append({"kind": "rot", "alg": alg, "N": N, "q": q, "rep": {**PLAIN, "arr": a, "N": "np.int64"}})
+    return out
+
+
 def run(ctx):
     corpus = [c for f in ctx.open_findings + ctx.fixed_findings for c in f.get("cases", [])]
     case_list = corpus + list(cases(ctx))
+    import random
+    rr = random.Random(f"C03-rep-{ctx.seed}")          # representation of every argument, drawn per case
+    for c in case_list:
+        if c["kind"] in ("grid", "rot") and "rep" not in c:
+            c["rep"] = _draw_rep(rr, c["kind"])
+    case_list += representation_sweep()
+    ctx.extra_cov["representations"] = {
+        "N": list(N_REPS), "algorithm name": list(STR_REPS), "dimensions": list(DIM_REPS), "routes": list(ROUTES),
+        "flags (only_upper of get_grid_as_array, approx of get_voronoi_volumes; value False)": list(FLAG_REPS),
+        "RotobjVoronoi(my_array) (rot cases)": list(ARR_REPS), "left_out": REPS_LEFT_OUT,
+        "how": "drawn per grid / rot case from a generator seeded by VERIF_SEED; additionally every family varied one at a "
+               "time (and all together) over ico_8, cube3D_13, randomS_20, judged by the same per-pair oracle and model"}
     ctx.note("scipy.spatial.SphericalVoronoi (qhull) output is an input of the model; its vertices are validated per run "
              "by the exact certificate (eps 1e-9) - completeness of the diagram and calculate_areas only by the oracle")
     ctx.note(f"oracle decision band: arc > {ADJ_MIN} must be adjacent, arc < {ZERO_MAX} must not; pairs in between are "
